@@ -19,6 +19,17 @@ import (
 var signalPoints = []string{"load.file", "lock.try", "lock.pidwritten", "build.locked", "walk.register", "walk.start", "cache.lookup", "exec.begin", "cmd.attempt",
 	"exec.outputs.pre", "file.write.cas", "dir.write.files", "dir.write.tree", "fs.set.tmp", "fs.set.rename", "fs.set.done", "exec.result.pre", "exec.result.post", "walk.complete", "pool.task.end", "walk.return", "file.load.cas", "dir.load.tree"}
 
+// isZombie: dead but not yet reaped by its (new) parent.
+func isZombie(pid int) bool {
+	b, err := os.ReadFile(fmt.Sprintf("/proc/%d/stat", pid))
+	if err != nil {
+		return true
+	}
+	s := string(b)
+	i := strings.LastIndex(s, ")")
+	return i < 0 || i+2 >= len(s) || s[i+2] == 'Z' || s[i+2] == 'X'
+}
+
 func pidAlive(pid int) bool {
 	if pid <= 1 {
 		return false
@@ -29,7 +40,7 @@ func pidAlive(pid int) bool {
 // RunC18: interrupts stop the build promptly and leave a recoverable state.
 func RunC18(tier string) int {
 	run := report.New("C18", tier, "fault_enumeration",
-		"seeded graphs with slow targets (commands that log their start, sleep 8 s and only then write outputs and their end marker) built by the real binary; SIGINT or SIGTERM is raised inside the process at the N-th hit of a chosen hook point (loading, lock acquisition, walker registration/start, cache lookup, just before a command is spawned, output writing, blob/result store steps, completion, shutdown) or sent from outside after a seeded delay; "+
+		"seeded graphs with slow targets (commands that log their start, sleep 8 s and only then write outputs and their end marker) built by the real binary; SIGINT or SIGTERM is raised inside the process at the N-th hit of a chosen hook point (loading, lock acquisition, walker registration/start, cache lookup, just before a command is spawned, output writing, blob/result store steps, completion, shutdown) or sent from outside after a seeded delay; slow commands whose shell ignores SIGTERM; a second build interrupted while it waits for the workspace lock held by the first; "+
 			"verdicts: a command that started although its cmd.attempt event follows signal.cancelled; an interrupted command whose end marker appears before grog exits, or whose shell is still alive after grog exited; exit status 0 although selected targets were unfinished at the signal; grog still running 30 s after the signal while quiescent (hang); a follow-up build that fails, cannot take the lock, does not re-execute an interrupted target or leaves wrong bytes; "+
 			"non-trivial = signal delivered while at least one command was running or pending; distinct = placement point + hit + signal + shape")
 	st, err := e1.Prepare(run, false)
@@ -49,6 +60,7 @@ func RunC18(tier string) int {
 		for _, t := range s.Targets {
 			if (nslow < 2 && r.Chance(1, 3)) || (nslow == 0 && t == s.Targets[len(s.Targets)-1]) {
 				t.SleepMs = 8000
+				t.TrapTerm = r.Chance(1, 2) // a command with a cleanup handler: its shell ignores TERM
 				nslow++
 			} else {
 				t.SleepMs = r.Intn(30)
@@ -92,6 +104,24 @@ func RunC18(tier string) int {
 		if err := env.Sync(); err != nil {
 			run.Infra(err.Error())
 			return
+		}
+		// which target shells are still alive at the moment grog is gone (before the harness
+		// cleans up the session)
+		var survivors []int
+		opts.BeforeCleanup = func() {
+			pids := env.ReadTrace("b1").ShellPids
+			for wait := 0; wait < 10; wait++ {
+				survivors = survivors[:0]
+				for _, sp := range pids {
+					if pidAlive(sp) && !isZombie(sp) {
+						survivors = append(survivors, sp)
+					}
+				}
+				if len(survivors) == 0 {
+					return
+				}
+				time.Sleep(50 * time.Millisecond)
+			}
 		}
 		start := time.Now()
 		res := env.M.Run([]string{"build"}, opts)
@@ -184,11 +214,10 @@ func RunC18(tier string) int {
 				}
 			}
 		}
-		for _, sp := range obs.ShellPids {
-			if pidAlive(sp) {
-				viol("target-shell-survives", fmt.Sprintf("shell %d of a target command is still alive after grog exited", sp))
-				return
-			}
+		run.Count("target_shells_checked_after_exit", len(obs.ShellPids))
+		if len(survivors) > 0 {
+			viol("target-shell-survives", fmt.Sprintf("shells %v of target commands were still alive 0.5 s after grog had exited", survivors))
+			return
 		}
 		// slow commands must not have run to completion after the signal: their E marker would
 		// need the full 8 s sleep, which promptness forbids
@@ -282,6 +311,88 @@ func RunC18(tier string) int {
 			if obs2.Started[slow.Label()] == 0 {
 				run.Violation("interrupted-target-not-re-executed", slow.Label()+" was interrupted, yet the identical follow-up build did not execute it (a cache entry must have been recorded)", map[string]any{"history": env.Log})
 			}
+		}
+	})
+	// third scenario: the interrupted build is still waiting for the workspace lock held by another build
+	e1.Parallel(tierN(tier, 8, 80), func(i int) {
+		r := rng.Derive(uint64(run.Seed), "C18-lockwait", fmt.Sprint(i))
+		pf := spec.DefaultProfile()
+		pf.MinTargets, pf.MaxTargets = 2, 5
+		s := spec.Gen(r, pf)
+		for _, t := range s.Targets {
+			t.SleepMs = 0
+		}
+		s.Targets[0].SleepMs = 4000 // the holder stays in its build for a while
+		env, err := e1.NewEnv(st.Base, fmt.Sprintf("k%d", i), st.Grog, st.Vctl, s, grog.Config{NumWorkers: 2})
+		if err != nil {
+			run.Infra(err.Error())
+			return
+		}
+		keep := false
+		defer func() {
+			if !keep {
+				env.Cleanup()
+			}
+		}()
+		holderLog := env.EnableHookLog()
+		waiterLog := filepath.Join(env.Dir, "hooks-waiter.jsonl")
+		if err := env.Sync(); err != nil {
+			run.Infra(err.Error())
+			return
+		}
+		sig := rng.Pick(r, []syscall.Signal{syscall.SIGINT, syscall.SIGTERM})
+		sawEvent := func(log, name string) bool {
+			for _, ev := range e1.ReadHookLog(log) {
+				if ev.Name == name {
+					return true
+				}
+			}
+			return false
+		}
+		holderDone := make(chan *grog.Result, 1)
+		go func() {
+			holderDone <- env.M.Run([]string{"build"}, grog.RunOpts{Build: "b1", Timeout: 60 * time.Second})
+		}()
+		for w := 0; w < 200 && !sawEvent(holderLog, "build.locked"); w++ {
+			time.Sleep(20 * time.Millisecond)
+		}
+		signalled := false
+		wres := env.M.Run([]string{"build"}, grog.RunOpts{Build: "b2", Timeout: 40 * time.Second, Env: []string{"GROG_VERIF_LOG=" + waiterLog},
+			AfterStart: func(pid int) {
+				for w := 0; w < 150; w++ {
+					if sawEvent(waiterLog, "lock.wait") {
+						time.Sleep(time.Duration(r.Range(0, 150)) * time.Millisecond)
+						signalled = true
+						_ = syscall.Kill(pid, sig)
+						return
+					}
+					time.Sleep(20 * time.Millisecond)
+				}
+			}})
+		hres := <-holderDone
+		run.Eval(1)
+		run.Count("builds_interrupted_while_waiting_for_the_lock", 1)
+		replay := map[string]any{"history": env.Log, "signal": sig.String(), "waiter_stdout": tail(wres.Stdout+wres.Stderr, 800), "holder_stdout": tail(hres.Stdout+hres.Stderr, 800)}
+		viol := func(sg, what string) { keep = !run.Violation(sg, what, replay) || keep }
+		if !signalled {
+			run.Count("lock_wait_not_reached(holder finished first)", 1)
+			return
+		}
+		waiterLocked := sawEvent(waiterLog, "build.locked")
+		obsW := env.ReadTrace("b2")
+		run.Nontrivial(fmt.Sprintf("lockwait|%s|%s|locked=%v", sig, s.Shape(), waiterLocked))
+		switch {
+		case wres.Crashed() != "":
+			viol("crash-on-interrupt lock-wait", "grog crashed when interrupted while waiting for the workspace lock: "+wres.Crashed())
+		case wres.TimedOut:
+			viol("no-exit-after-signal at=lock-wait", "grog was still waiting for the workspace lock 40 s after start although it had been sent "+sig.String())
+		case !waiterLocked && len(obsW.Started) > 0:
+			viol("command-started-without-the-lock", fmt.Sprintf("the interrupted waiter never acquired the lock but started %v", obsW.Started))
+		case !waiterLocked && wres.Exit == 0:
+			viol("exit-zero-after-interrupt at=lock-wait", fmt.Sprintf("grog exited 0 after %s arrived while it was waiting for the workspace lock: none of its %d selected targets was built", sig, len(s.Targets)))
+		}
+		if hres.Exit != 0 || hres.TimedOut {
+			viol("holder-disturbed-by-interrupted-waiter", fmt.Sprintf("the build holding the lock ended with exit=%d timed_out=%v", hres.Exit, hres.TimedOut))
 		}
 	})
 	run.Assume("exec.CommandContext refuses to start a command once the context is cancelled; a command attempted before the cancellation may legitimately still start")
